@@ -13,7 +13,7 @@ if [ "$2" = rm ]; then
   git -C /repo worktree prune
   exit 0
 fi
-PATCH=$(readlink -f "$2"); ID=$3; TIER=${4:-quick}
+if [ "$2" = none ]; then PATCH=none; else PATCH=$(readlink -f "$2"); fi; ID=$3; TIER=${4:-quick}
 mkdir -p $SLOT
 if [ ! -d $SLOT/repo ]; then
   git -C /repo worktree add -q --detach $SLOT/repo HEAD || exit 2
@@ -31,7 +31,7 @@ rsync -rc --delete --exclude target --exclude evidence --exclude 'replays/C[0-9]
 chmod +x $SLOT/verif/bin/*
 mkdir -p $SLOT/verif/evidence $SLOT/verif/target
 cd $SLOT/repo || exit 2
-git apply "$PATCH" || { echo "PATCH-FAILED $PATCH"; exit 2; }
+if [ "$PATCH" != none ]; then git apply "$PATCH" || { echo "PATCH-FAILED $PATCH"; exit 2; }; fi
 OUT=$(cd $SLOT/verif && VERIF_ROOT=$SLOT/verif timeout 3000 bin/vcheck $ID $TIER 2>&1)
 rc=$?
 git -C $SLOT/repo checkout -q -- .
